@@ -320,6 +320,10 @@ _RULE_EXTRA = {
     "C05": "; 1 in 4 keyed tuples with column-changing branches (add / remove / move columns per branch, shared new names), judged by column name; 1 in 4 with an all-empty key",
     "C06": "; block indices built by IndexBlock (0..5 or 255 rows, keyed or keyless): written, read, re-written, stored, fetched, compared with the Lean codec; table profiles of real ingests decoded and re-encoded (no Lean model of the profile: re-encoding clauses only)",
     "C07": "; 1 in 5 extra tables header-only",
+    "C09": "; every fourth case index adds one case of a kind chosen by the index (tag variant=…): multi-depth (3..4 heads forking from a shared trunk with 0..4 own commits, cross merges, `fetch --depth d` with d around the distance to the shared part), sender-fault (the remote's store fails its k-th read of a table / block / commit during a fetch, or a local table object is cut short before a push; the retry is judged too), "
+           "second-remote (full or shallow clone, origin removed or kept, pushes to a second remote that is empty or holds a prefix; a crash of the command counts as a failed push), merge-shallow (after `fetch --depth 1|2`, `wrgl merge main <origin/main~j | sum>` in every mode: a moved branch head must have its table)",
+    "C10": "; every fourth case index adds one case of a kind chosen by the index (tag variant=…): overlap-specs (2..3 refspecs over the same remote heads into remotes/origin/*, a custom ref and remotes/mirror/*, every pattern of '+' in command-line order, after the remote moved forward / sideways / back; each destination is judged by the '+' of its own refspec), "
+           "ff-config (merge.fastForward unset / never / only x no flag / --ff / --no-ff / --ff-only for merge and pull; the flag wins), merge-shallow (merge of a named commit of a depth-limited fetch: refused and reported when its table is absent, exact fast-forward otherwise)",
     "C11": "; walks from 3..5 start points with a repeated one",
     "C13": "; every write position also as a single injected write error (the operation continues): consistency, error reported or harmless, re-run",
     "C14": "; 1 in 5 scenarios inject the fault into discard (crash or single error at each of its store operations) and discard again; commit faults as crash or single error",
